@@ -37,7 +37,8 @@ Eff(c, t, o) ==
       [] o = 1 -> IF c.a THEN {[a |-> c.a, g |-> TRUE, st |-> [c.st EXCEPT ![t] = 1]]} ELSE {Set(c, t, 0)}
       [] o = 2 -> IF ~c.a \/ c.g THEN {Set(c, t, 1)} ELSE {}
       [] o = 3 -> IF ~c.a \/ c.g THEN {Set(c, t, 1)} ELSE {}
-      [] o = 13 -> IF ~c.a \/ c.g THEN {Set(c, t, 1)} ELSE {Set(c, t, 0)}
+      \* after the give-up: 0 whenever the event has not happened (also when the variable was deactivated meanwhile)
+      [] o = 13 -> (IF ~c.a \/ c.g THEN {Set(c, t, 1)} ELSE {}) \cup (IF ~c.g THEN {Set(c, t, 0)} ELSE {})
       [] o = 4 -> IF c.a THEN {Set(c, t, 0)} ELSE {}
       [] o = 5 -> IF c.a THEN {Set(c, t, 1)} ELSE {}
       [] o = 15 -> IF c.a THEN {Set(c, t, 1)} ELSE {Set(c, t, 0)}
